@@ -511,8 +511,9 @@ H("c02_order_async_refake", props=["C02", "C14", "C12"], fns=_INJ_FNS + _ASYNC_F
   bounded="one history: fake / unchecked re-fake / re-fake of the same async function (K=3), core replaced by a tagging recorder", **_MODS_INJ)
 H("c02_order_sync_flavours", props=["C02", "C12"], fns=_INJ_FNS, shared=_FL_SHARED, timeout=400,
   bounded="one history: the same target through each of the four synchronous installation calls (K=4), core replaced by tagging recorders", **_MODS_INJ)
-H("c02_order_bool_refake", props=["C02", "C12", "C10"], fns=_INJ_FNS, shared=_FL_SHARED, timeout=400, covers=["COVER:end", "COVER:same-value-after-other-fake"],
-  bounded="histories of length 3 on one target: forced boolean / (other boolean | replacement) / forced boolean, values symbolic; core replaced by tagging recorders", **_MODS_INJ)
+for _n in ("c02_bool_refake_tt", "c02_bool_refake_ff", "c02_bool_refake_tf", "c02_bool_refake_tbt"):
+    H(_n, props=["C02", "C12", "C10"], fns=_INJ_FNS, shared=_FL_SHARED, timeout=600, covers=["COVER:end"],
+      bounded="one history of length 3 on one target: forced boolean / (replacement | other boolean) / forced boolean, concrete values; core replaced by tagging recorders", **_MODS_INJ)
 H("c02_order_async_refake2", props=["C02", "C14", "C12"], fns=_INJ_FNS + _ASYNC_FNS, shared=_FL_SHARED, timeout=600,
   bounded="one history: the same async function faked twice (K=2), core replaced by a tagging recorder", **_MODS_INJ)
 for _h in ("c02_order_async_refake", "c02_order_async_refake2"):
